@@ -193,3 +193,77 @@ def run(chk):
     for _, msg in list(lc.compare_tree(init['ret'], spec_cols, ret, lc.KeyMap(), 'init result'))[:1]:
       chk.violation(key, msg, beh)
   chk.cov['lifted_block_programs'] = len(seen)
+  # ---- variables whose *value* is a pytree (dict with non-string keys, tuple, FrozenDict) at several depths: what init returns is
+  # what apply / bind consume, and the shape-only initialisers agree on it
+  import flax.linen as nn
+  from flax.core import FrozenDict
+
+  def table(kind):
+    base = {2: jnp.zeros((2,), jnp.int32), 4: jnp.ones((4,), jnp.int32)}
+    return {'int-keys': lambda: dict(base), 'tuple-keys': lambda: {(0, 1): base[2], (1, 0): base[4]}, 'tuple': lambda: (base[2], base[4]),
+            'frozen-int-keys': lambda: FrozenDict(base), 'nested': lambda: {'x': {1: base[2]}, 'y': [base[4]]}}[kind]
+
+  class Tbl(nn.Module):
+    kind: str
+    col: str
+    depth: int
+
+    @nn.compact
+    def __call__(self):
+      if self.depth:
+        return Tbl(self.kind, self.col, self.depth - 1)()
+      mk = table(self.kind)
+      v = self.param('tbl', lambda key: mk()) if self.col == 'params' else self.variable(self.col, 'tbl', mk).value
+      return sum(jnp.sum(x) for x in jax.tree_util.tree_leaves(v))
+  for kind in ('int-keys', 'tuple-keys', 'tuple', 'frozen-int-keys', 'nested'):
+    for col in ('params', 'st'):
+      for depth in (0, 1, 2):
+        key = f'C02:pytree-valued-variable:{kind}:{col}:depth={depth}'
+        chk.count(key)
+        m = Tbl(kind, col, depth)
+        try:
+          out0, variables = m.init_with_output(rngs1)
+        except Exception as e:
+          chk.note(f'{key}: init raised {type(e).__name__}') if hasattr(chk, 'note') else None
+          continue
+        try:
+          out1 = m.apply(variables)
+          out2 = m.bind(variables)()
+          shp = jax.eval_shape(lambda: m.init(rngs1))
+          lz = m.lazy_init(rngs1)
+        except Exception as e:
+          chk.violation(key, f'init returns variables that apply / bind / eval_shape / lazy_init reject: {type(e).__name__}: {str(e)[:160]}', {})
+          continue
+        st = lambda t: (jax.tree_util.tree_structure(t), [(tuple(x.shape), str(x.dtype)) for x in jax.tree_util.tree_leaves(t)])
+        if int(out1) != int(out0) or int(out2) != int(out0) or st(shp) != st(variables) or st(lz) != st(variables):
+          chk.violation(key, f'init output {int(out0)}, apply {int(out1)}, bound call {int(out2)}; structures init / eval_shape / lazy_init: '
+                             f'{st(variables)[1]} / {st(shp)[1]} / {st(lz)[1]}', {})
+  # ---- shape-only initialisation with abstract arguments of several ranks / dtypes (mixed precision): lazy_init on
+  # ShapeDtypeStructs = eval_shape(init) = struct of the concrete init, including dtypes derived from promoted activations
+  class MP(nn.Module):
+    act: object
+
+    @nn.compact
+    def __call__(self, x, scale):
+      h = nn.Dense(3, dtype=self.act)(x) * scale
+      acc = self.variable('st', 'acc', lambda: jnp.zeros(h.shape, h.dtype))
+      w = self.param('w', lambda key: jnp.ones(h.shape[-1:], h.dtype))
+      return h * w + acc.value
+  for act in (jnp.bfloat16, jnp.float16, jnp.float32):
+    for sdt in (jnp.float32, jnp.bfloat16, jnp.int32):
+      for sshape in ((), (1,), (2, 1)):
+        key = f'C02:shapeonly-abstract-args:{jnp.dtype(act).name}:scale={jnp.dtype(sdt).name}{list(sshape)}'
+        chk.count(key)
+        m = MP(act)
+        x, sc = jnp.ones((2, 4), jnp.float32), jnp.ones(sshape, sdt)
+        ax, asc = jax.ShapeDtypeStruct(x.shape, x.dtype), jax.ShapeDtypeStruct(sc.shape, sc.dtype)
+        try:
+          concrete = struct(m.init(rngs1, x, sc))
+          got = {'lazy_init': struct(m.lazy_init(rngs1, ax, asc)), 'eval_shape': struct(jax.eval_shape(m.init, rngs1, ax, asc)),
+                 'lazy_init(concrete x)': struct(m.lazy_init(rngs1, x, asc))}
+        except Exception as e:
+          chk.violation(key, f'raised {type(e).__name__}: {str(e)[:160]}', {})
+          continue
+        for name, g in got.items():
+          if g != concrete:
+            chk.violation(key, f'{name} yields {g}, the concrete init {concrete}', {})
